@@ -179,17 +179,29 @@ func runC12(c *Ctx) {
 			}
 			nout++
 			ok := true
-			for _, r := range *v.Referrers() {
-				switch y := r.(type) {
-				case *ssa.DebugRef:
-				case *ssa.Call:
-					if !(copyF(calleeOf(y.Common())) && len(y.Call.Args) > 0 && y.Call.Args[0] == v) {
+			var chk func(v ssa.Value, isAddr bool)
+			chk = func(v ssa.Value, isAddr bool) {
+				for _, r := range *v.Referrers() {
+					switch y := r.(type) {
+					case *ssa.DebugRef:
+					case *ssa.UnOp:
+						// the address of the field of a local copy of the entry: follow the loaded pointer
+						if isAddr && y.Op == token.MUL && y.X == v {
+							chk(y, false)
+						} else {
+							ok = false
+						}
+					case *ssa.Call:
+						if isAddr || !(copyF(calleeOf(y.Common())) && len(y.Call.Args) > 0 && y.Call.Args[0] == v) {
+							ok = false
+						}
+					default:
 						ok = false
 					}
-				default:
-					ok = false
 				}
 			}
+			_, isAddr := v.(*ssa.FieldAddr)
+			chk(v, isAddr)
 			c.Check(rule, fmt.Sprintf("%s|hit#%d|used-only-through-Copy", name, nout), ok, in.Pos(), "a cached message is shared by concurrent queries: it may only be copied")
 		}
 	}
